@@ -132,6 +132,17 @@ def map_rules(ctx, flavours):
                                     why.append('returns false on the "absent" branch')
                                 if v == 'true' and not cfg.edge_dominates(fe[0], fe[1], bi):
                                     why.append('returns true on the "present" branch')
+                            elif s['k'] == 'assign' and s['dst']['l'] == 0 and not s['dst']['p']:
+                                # the result is the outcome of the membership test and nothing else (not pointer identity of the
+                                # argument with the member, not what map.insert returned, ..)
+                                rt_ = deep_unwrap(pv.of_operand(s['rv']['ops'][0])) if s['rv'].get('ops') else None
+                                me_ = deep_unwrap(('call', callee_name(ct), tuple(pv.of_operand(x) for x in ct['args']), cbi))
+                                neg_ = isinstance(rt_, tuple) and rt_ and rt_[0] == 'unop' and rt_[1] == 'Not' and deep_unwrap(rt_[2]) == me_
+                                if not (neg_ and not via_get):
+                                    why.append('the result is computed (%s), not the constant of its branch' % pretty(rt_)[:60])
+                        tt_ = bb['term']
+                        if tt_['k'] == 'call' and tt_['dst']['l'] == 0 and not tt_['dst']['p']:
+                            why.append('the result is what %s returns, not the outcome of the membership test' % callee_name(tt_).split('::')[-1])
             out.append(Obl('MAP', b['q'], b['span'], 'insert(node): map.insert(key, node) only when the key is absent; returns false/true accordingly', not why, '; '.join(why) if why else 'ok'))
         # frame: only insert and remove mutate the map
         for name, b in sorted(ms.items()):
